@@ -118,6 +118,42 @@ class PosClassifier:
             return any(self._positive_conjunct(v, call) for v in cond.values)
         return False
 
+    def extent_dim(self, e: ast.AST, depth: int = 4) -> str:
+        """'height' / 'width' when `e` denotes that extent of a grid shape or area:
+        `<..>.shape.height`, `<..>.area.width`, a component of `<..>.shape.as_tuple`, or a
+        local bound to one of these (also by tuple unpacking)"""
+        if depth < 0:
+            return ''
+        if isinstance(e, ast.Attribute) and e.attr in ('height', 'width') and \
+                isinstance(e.value, ast.Attribute) and e.value.attr in ('shape', 'area'):
+            return e.attr
+        if isinstance(e, ast.Subscript) and isinstance(e.slice, ast.Constant) and \
+                e.slice.value in (0, 1):
+            return self._extent_item(e.value, e.slice.value, depth - 1)
+        if isinstance(e, ast.Name):
+            d = self.w.single_def(e.id)
+            if d is None:
+                return ''
+            if d[0] == 'value':
+                return self.extent_dim(d[1], depth - 1)
+            if d[0] == 'unpack':
+                val, i = d[1]
+                return self._extent_item(val, i, depth - 1) if isinstance(i, int) else ''
+        return ''
+
+    def _extent_item(self, val: ast.AST, i: int, depth: int) -> str:
+        if isinstance(val, ast.Name):
+            d = self.w.single_def(val.id)
+            if d is None or d[0] != 'value':
+                return ''
+            val = d[1]
+        if isinstance(val, ast.Attribute) and val.attr == 'as_tuple' and \
+                isinstance(val.value, ast.Attribute) and val.value.attr == 'shape':
+            return ('height', 'width')[i]
+        if isinstance(val, (ast.Tuple, ast.List)) and len(val.elts) == 2:
+            return self.extent_dim(val.elts[i], depth)
+        return ''
+
     def classify(self, p: ast.AST, loops, depth: int = 5) -> Tuple[str, str]:
         if depth < 0:
             return UNSAFE, 'too deep'
@@ -133,8 +169,7 @@ class PosClassifier:
                     for t, it in loops:
                         if src(t) == el.id and isinstance(it, ast.Call) and \
                                 src(it.func) == 'range' and len(it.args) == 1 and \
-                                (src(it.args[0]).endswith(f'.shape.{dim}') or
-                             src(it.args[0]).endswith(f'.area.{dim}')):
+                                self.extent_dim(it.args[0]) == dim:
                             good = True
                         # the coordinates of the grid's own area
                         if src(t) == el.id and isinstance(it, ast.Call) and \
